@@ -22,9 +22,9 @@
 (* names always have a non-empty namespace and local name (on a real stream the      *)
 (* default namespace is always declared). Kinds: "top" (any non-stanza top-level     *)
 (* element, registered with mux.Handle), "iq", "msg", "pres". The stanza namespace   *)
-(* is the symbol "NS" and is not in the pattern universe (a Handle pattern naming    *)
-(* the stanza namespace itself is a configuration the property does not speak        *)
-(* about). Deliberately outside the alphabet (property silent, see REPORT-serve.md): *)
+(* is the symbol "NS"; the one Handle pattern that can name it is the namespace-only *)
+(* pattern ("NS", ""): a stanza is a top-level element, the top-level table is        *)
+(* consulted first, so that pattern takes every stanza. Deliberately outside the alphabet (property silent, see REPORT-serve.md): *)
 (* iq stanzas with a missing/unknown type, get/set/error iqs without payload or with *)
 (* a text payload (C07/C09 territory), handlers that return errors.                  *)
 EXTENDS Integers, Sequences, FiniteSets, TLC
